@@ -460,10 +460,10 @@ def _index(p):
     import numpoly
     fn, q = p["fn"], p.get("p", {})
 
-    def run():
+    def run(*given):
         if fn == "glexsort":
-            keys = numpy.array(q["keys"], dtype=int)
-            if q.get("oned"):
+            keys = given[0] if given else numpy.array(q["keys"], dtype=int)     # a register: the caller's own key matrix
+            if q.get("oned") and not given:
                 keys = keys[0]
             return numpoly.glexsort(keys, graded=q["graded"], reverse=q["reverse"])
         if fn == "cross_truncate":
